@@ -125,6 +125,42 @@ def scan_vocab():
     return sorted(tags), sorted(keys), unknown
 
 
+def scan_pins():
+    """(pins, callers): for each block rule, the literal it assigns to state.parentType before running a
+    terminator chain / nested tokenize, and the rules whose source runs a terminator chain (`getRules(`)."""
+    import inspect
+    from markdown_it import parser_block
+
+    pins, callers = [], []
+    for name, fn, _alt in parser_block._rules:
+        try:
+            src = inspect.getsource(fn)
+        except (OSError, TypeError):
+            continue
+        m = re.search(r"state\.parentType\s*=\s*[\"']([A-Za-z_]+)[\"']", src)
+        if m:
+            pins.append((name, m.group(1)))
+        if "getRules(" in src:
+            callers.append(name)
+    return pins, callers
+
+
+def scan_parent_readers():
+    """block rules whose source tests state.parentType (reads it, other than to save/restore)"""
+    import inspect
+    from markdown_it import parser_block
+
+    out = []
+    for name, fn, _alt in parser_block._rules:
+        try:
+            src = inspect.getsource(fn)
+        except (OSError, TypeError):
+            continue
+        if re.search(r"parentType\s*(==|!=|\bin\b|\bnot in\b|\bis\b)", src):
+            out.append(name)
+    return out
+
+
 def generate() -> list[str]:
     common.use_repo()
     import importlib
@@ -244,6 +280,13 @@ def generate() -> list[str]:
     w("/-- attribute keys of every `attrs = {..}` literal, `attrSet/attrJoin/attrPush(\"k\", ..)` -/")
     w("def attrKeys : List String := " + llist(keys))
     w("")
+    pins, callers = scan_pins()
+    w("/-- literal each block rule assigns to `state.parentType` while it runs (source scan of the rule functions) -/")
+    w("def blockPins : List (String × String) := " + llist(pins, lambda r: f"({lstr(r[0])}, {lstr(r[1])})"))
+    w("/-- block rules that run a terminator chain (`getRules(` in their source) -/")
+    w("def terminatorCallers : List String := " + llist(callers))
+    w("/-- block rules that test `state.parentType` -/")
+    w("def parentReaders : List String := " + llist(scan_parent_readers()))
     w("end MdIt.Gen")
     text = "\n".join(L) + "\n"
     target = common.LEAN / "MdIt" / "Generated" / "Tables.lean"
